@@ -66,6 +66,12 @@ def gen_case(rng, spec):
         R = rng.choice(["Float", "Boolean", "MaxTimes", "Real"])
     if R == "Q" and "nullable_cycle" in cls:
         R = "Float"
+    if R == "Log" and rng.random() < 0.3:
+        # tiny log-weights (around exp(-35) per rule): exact rationals in the oracle, log-space comparison
+        from fractions import Fraction as Fr
+
+        sc = Fr(1, 2 ** rng.choice([40, 50]))
+        g = dict(g, rules=[[(w * sc if rng.random() < 0.4 else w), h, b] for w, h, b in g["rules"]])
     if R in ("Float", "Real", "Q") and rng.random() < 0.2:
         # a field: rule weights may be negative (the bound on sum |w| keeps every sum absolutely convergent)
         g = dict(g, rules=[[(-w if rng.random() < 0.35 else w), h, b] for w, h, b in g["rules"]])
